@@ -1,4 +1,4 @@
 SPECIFICATION TraceSpec
-INVARIANTS HarnessGenuineAccepted HarnessAltAgrees C29_BlockBinding C29_HashSensitive
+INVARIANTS HarnessGenuineAccepted HarnessAltAgrees HarnessDupShape C29_BlockBinding C29_HashSensitive
 POSTCONDITION Accepted
 CHECK_DEADLOCK FALSE
